@@ -76,3 +76,13 @@ _a("C35", "paired encodings of constraints: Mask(v, True) concrete / array flag 
    "Exploration: importance and update under enc:mask-* perturbations must agree with the plain replica and with the reference post-conditions.")
 _a("C38", "paired operations: propose vs simulate, importance vs generate (bitwise, same key); EmptyRequest, StaticRequest, DiffAnnotate(identity) post-conditions; Trace.* vs GenerativeFunction.* API variants",
    "Exploration over request compositions and argument changes.")
+
+
+def _b(pid, technique, text):
+    CLAIMS[pid] = ("chmsim", "deterministic simulation with fault injection: seeded construction histories on replicas that differ in flag/index encoding (concrete, array, jit-traced, vmapped), against a reference model; " + technique, text, "sampling, not proof; trusted base: the finite-map / truth-table model in sim/chmsim.py; layouts the library rejects by design (Choice|non-Choice, two switches in an Or, an index level next to un-indexed siblings) are not generated", "DESIGN 2.14, 3 " + pid)
+
+
+_b("C17", "finite-map model stepped alongside d/kw/entry/extend/at.set/|/mask/filter/switch/get_submap/array-index/slice/vmapped builders; every model address and perturbed absent addresses read after construction",
+   "Exploration: validity and value of every lookup must equal the model's (left-biased union, mask(False) empties, filter keeps selected static parts, index levels address elements) in the concrete, array and jit replicas; get_selection must select the static part of every valid address.")
+_b("C19", "truth tables of | ^ ~ build flatten maybe_mask unmask(default) or_n xor_n applied to (flag, value, defined) triples, scalar and vectorised flags, pytree values",
+   "Exploration: flag and valid value of every intermediate result must equal the truth tables in the concrete, array, jit and vmap replicas (payloads the tables leave undefined are not compared).")
